@@ -219,6 +219,9 @@ Section Proofs.
   Lemma resel_ext : forall m d cols, ext (dmap d) (dmap (reselect norm c m d cols)).
   Proof. intros m d cols. unfold reselect. destruct (resel_of c m); [apply ext_refl | apply psc_ext]. Qed.
 
+  Lemma join_dmap_ext : forall d l rn, ext (dmap d) (join_dmap norm c d l rn).
+  Proof. intros d l rn. unfold join_dmap. destruct (join_merges c); [apply ext_upd_all | apply ext_refl]. Qed.
+
   Lemma In_replace_first : forall k new l x, In x (replace_first k new l) -> x = new \/ In x l.
   Proof.
     induction l as [|it r IH]; intros x H; simpl in *; [contradiction|].
@@ -230,9 +233,9 @@ Section Proofs.
   Lemma cfg_ok_spec : cfg_ok c = true ->
     views_cfg_ok c = true /\ rk_records (rec_of c MCreate) = true /\ rk_records (rec_of c MSelect) = true
     /\ rk_records (rec_of c MWithColumn) = true /\ rk_records (rec_of c MWithColumnRenamed) = true
-    /\ rk_records (rec_of c MAgg) = true /\ col_disp_ident c = true /\ alias_disp_raw c = true /\ str_disp_raw c = true.
+    /\ rk_records (rec_of c MAgg) = true /\ col_disp_ident c = true /\ alias_disp_raw c = true.
   Proof.
-    unfold cfg_ok. intro H. do 8 (apply andb_true_iff in H; destruct H as [H ?]). tauto.
+    unfold cfg_ok. intro H. do 7 (apply andb_true_iff in H; destruct H as [H ?]). tauto.
   Qed.
 
   Lemma sel_arg_item_v : forall a, sel_arg_ok_v norm a = true -> canon (arg_item norm a) = true.
@@ -257,7 +260,7 @@ Section Proofs.
     body norm wordu c o d = Some (self', res) -> Inv (dmap res) (sel res).
   Proof.
     intros o d self' res Hc Hi Hv Hb.
-    destruct (cfg_ok_spec Hc) as (_ & RC & RS & RW & RR & RA & CI & AR & SR).
+    destruct (cfg_ok_spec Hc) as (_ & RC & RS & RW & RR & RA & CI & AR).
     destruct o; simpl in Hv, Hb.
     - (* select *)
       injection Hb as Hs Hr; subst self' res. simpl. rewrite (record_dmap _ _ _ RS).
@@ -292,7 +295,7 @@ Section Proofs.
       apply filter_In in Hcd. apply Hi, In_outer_fst; tauto.
     - (* groupBy.agg *)
       match type of Hb with (if ?b then _ else _) = _ => destruct b end; [discriminate|].
-      injection Hb as Hs Hr; subst self' res. simpl. unfold pre_group. rewrite dmap_pre_with.
+      injection Hb as Hs Hr; subst self' res. simpl.
       apply andb_true_iff in Hv. destruct Hv as [Hk Ha]. rewrite forallb_forall in Hk, Ha.
       apply Inv_app; intros it Hin; apply in_map_iff in Hin; destruct Hin as [a [E Hin]]; subst it.
       + specialize (Hk a Hin). destruct a as [x|x|x al|x]; simpl in Hk; try discriminate;
@@ -312,6 +315,7 @@ Section Proofs.
     - (* join *)
       destruct (forallb (fun k => mem k (base d)) (map (fun k => qp (ident k)) keys)); [|discriminate].
       injection Hb as Hs Hr; subst self' res. simpl.
+      apply (Inv_ext (dmap d)); [|apply join_dmap_ext].
       apply andb_true_iff in Hv. destruct Hv as [Hr Hk]. rewrite forallb_forall in Hr, Hk.
       rewrite (Inv_renorm _ _ Hi).
       assert (BU : forall n, bare_unquoted norm n = true ->
@@ -352,6 +356,7 @@ Section Proofs.
       injection Hb as Hs Hr; subst self' res. exact Hi.
     - (* join on a condition *)
       injection Hb as Hs Hr; subst self' res. simpl.
+      apply (Inv_ext (dmap d)); [|apply join_dmap_ext].
       rewrite forallb_forall in Hv. rewrite (Inv_renorm _ _ Hi).
       intros it Hin. apply in_map_iff in Hin. destruct Hin as [nmx [E Hin]]. subst it.
       apply in_map_iff in Hin. destruct Hin as [x [E Hx]]. subst nmx. fold (renorm x).
@@ -539,13 +544,13 @@ Section Proofs.
     arg_item norm a = ident_p (arg_name a) /\ good_name (arg_name a) = true
     /\ arg_rec norm c a = kv (arg_name a) /\ resolves norm ns (arg_ref a) = true.
   Proof.
-    intros ns a Hc H. destruct (cfg_ok_spec Hc) as (_ & _ & _ & _ & _ & _ & CI & AR & SR).
+    intros ns a Hc H. destruct (cfg_ok_spec Hc) as (_ & _ & _ & _ & _ & _ & CI & AR).
     unfold sel_arg_ok in H. apply andb_true_iff in H. destruct H as [H H3].
     apply andb_true_iff in H. destruct H as [H1 H2].
     unfold arg_rec, kv. destruct a as [x|x|x al|x]; simpl in *.
-    - destruct (ident_ref_ok x H1) as [E G]. rewrite E, SR.
+    - destruct (ident_ref_ok x H1) as [E G]. rewrite E.
       assert (A : attr x = x) by (unfold attr, user_ident; rewrite (unbt_plain x H3); reflexivity).
-      rewrite A in *. auto.
+      rewrite A in *. destruct (str_disp_raw c); auto.
     - destruct (ident_ref_ok x H1) as [E G]. rewrite E, CI. auto.
     - rewrite (ident_good al H3), AR. auto.
     - destruct (ident_ref_ok x H1) as [E G]. rewrite E, CI. auto.
@@ -598,7 +603,7 @@ Section Proofs.
     exists ns', spec_step norm o ns = Some ns' /\ Rel res ns'.
   Proof.
     intros o d ns self' res Hc HR Hv Hb.
-    destruct (cfg_ok_spec Hc) as (_ & RC & RS & RW & RR & RA & CI & AR & SR).
+    destruct (cfg_ok_spec Hc) as (_ & RC & RS & RW & RR & RA & CI & AR).
     pose proof (Rel_Inv d ns HR) as Hi.
     destruct HR as (Hs & Hl & Hg & Hnd).
     assert (Hp : forall x, In x ns -> plain x = true) by (intros x Hx; apply good_plain, Hg, Hx).
@@ -720,13 +725,16 @@ Section Proofs.
 
   Lemma create_rel : forall ns, cfg_ok c = true -> create_ok norm ns = true -> Rel (create norm c ns) ns.
   Proof.
-    intros ns Hc Hok. destruct (cfg_ok_spec Hc) as (_ & RC & _ & _ & _ & _ & _ & _ & SR).
+    intros ns Hc Hok. destruct (cfg_ok_spec Hc) as (_ & RC & _).
     unfold create_ok in Hok. apply andb_true_iff in Hok. destruct Hok as [Hg Hn].
     rewrite forallb_forall in Hg.
     assert (Hd : dmap (create norm c ns) = upd_all (map kv ns) []).
-    { unfold create. rewrite SR. replace (map (fun n => (qp (ident n), n)) ns) with (map kv ns).
+    { unfold create.
+      replace (map (fun n => (qp (ident n), if str_disp_raw c then n else attr n)) ns) with (map kv ns).
       - destruct (rec_of c MCreate); [discriminate|reflexivity|reflexivity].
-      - apply map_ext_in. intros n Hin. unfold kv. rewrite (ident_good n (Hg n Hin)). reflexivity. }
+      - apply map_ext_in. intros n Hin. unfold kv. rewrite (ident_good n (Hg n Hin)).
+        assert (A : attr n = n) by (unfold attr, user_ident; rewrite (unbt_plain n (good_plain n (Hg n Hin))); reflexivity).
+        rewrite A. destruct (str_disp_raw c); reflexivity. }
     split; [|split; [|split]].
     - unfold create. destruct (rec_of c MCreate); simpl; apply map_ext_in; intros n Hin; apply ident_good, Hg, Hin.
     - intros n Hin. rewrite Hd. apply lookup_recorded; [intros x Hx; apply good_plain, Hg, Hx | apply nodupb_NoDup, Hn | exact Hin].
@@ -778,7 +786,9 @@ Section Proofs.
       { intros m kvs x. specialize (Hn m). destruct (rec_of c m); [reflexivity | contradiction | reflexivity]. }
       destruct o; simpl in Hb;
         repeat match type of Hb with context [if ?b then _ else _] => destruct b end;
-        try discriminate; injection Hb as Hs' _; subst self'; try reflexivity; apply R. }
+        try (destruct (rec_of c MToDF) eqn:ET);
+        try discriminate; injection Hb as Hs' _; subst self'; try reflexivity;
+        try (exfalso; eapply Hn; eassumption); apply R. }
     destruct o; try reflexivity;
       (destruct (snd (pre norm c _ d)); [reflexivity|]); unfold columns; simpl; rewrite Hd; unfold pre;
       rewrite dmap_pre_with; reflexivity.
